@@ -132,8 +132,10 @@ func geometry(o decodeOutcome, in []byte) error {
 	if len(m.Raw) < 20 {
 		return fmt.Errorf("success with %d raw bytes", len(m.Raw))
 	}
-	if !bytes.Equal(m.Raw, in) {
-		return fmt.Errorf("m.Raw (%d bytes) is not the input (%d bytes)", len(m.Raw), len(in))
+	// the message's own bytes are the input (an implementation may drop bytes after the declared
+	// length; the statement only requires the views to lie inside the message's own body)
+	if !bytes.HasPrefix(in, m.Raw) {
+		return fmt.Errorf("m.Raw (%d bytes) is not (a prefix of) the input (%d bytes)", len(m.Raw), len(in))
 	}
 	declared := int(m.Raw[2])<<8 | int(m.Raw[3])
 	if int(m.Length) != declared || len(m.Raw) < 20+declared {
